@@ -25,6 +25,11 @@ Definition dec_ev (v : tval) : ev :=
   | 18 => EBanLapse (a 1%nat) | 19 => EUnbanLands (a 1%nat)
   | 20 => ESetRecord (a 1%nat) (vbool (vnth 2 v)) (a 3%nat)
   | 21 => EWhite (a 1%nat) (vbool (vnth 2 v)) | 22 => EUnwhite (a 1%nat) (vbool (vnth 2 v))
+  | 23 => EBody (a 1%nat) {| h_cid := a 2%nat; h_new := vbool (vnth 3 v);
+                             h_resp := if vbool (vnth 4 v)
+                                       then Some (if (a 5%nat =? 0) || (a 6%nat =? 0) then 0 else hmac_corr (a 5%nat) (a 6%nat))
+                                       else None;
+                             h_tunnel := vbool (vnth 7 v) |}
   | 14 => ECorrupt (a 1%nat) (vbool (vnth 2 v))
   | _ => EDelAnon (a 1%nat)
   end.
